@@ -70,7 +70,7 @@ def ensure_vgen():
 
 
 # rewrites applied in every build (the shims pass through when no harness hooks them)
-BASE_VGEN = ["-os", "pkg/resmgr/cache/cache.go", "-sync", "pkg/resmgr/resource-manager.go", "-sync", "pkg/metrics/metrics.go", "-sched", "pkg/resmgr/cache/pod.go"]
+BASE_VGEN = ["-os", "pkg/resmgr/cache/cache.go", "-os", "pkg/resmgr/cache/utils.go", "-sync", "pkg/resmgr/resource-manager.go", "-sync", "pkg/metrics/metrics.go", "-sched", "pkg/resmgr/cache/pod.go", "-time", "pkg/agent/watch/object.go"]
 
 
 def gen_overlay(flags):
